@@ -477,7 +477,14 @@ func (g *Gen) applyContractX(st *State, c *Contract, key string, names []string,
 			// function of the arguments only between heap writes
 			flat = append(flat, pre.Epoch)
 		}
-		res = buildVal(resTy, func(lf leaf) *Term { return App("vp_pure!"+short+lf.Path, lf.Sort, flat...) })
+		// one symbol per argument shape (the shape varies with private/epoch arguments
+		// and with how an argument value is represented)
+		sig := ""
+		for _, a := range flat {
+			sig += a.S.String() + ","
+		}
+		shape := fmt.Sprintf("%d.%x", len(flat), fnv32(sig))
+		res = buildVal(resTy, func(lf leaf) *Term { return App("vp_pure!"+short+lf.Path+"!"+shape, lf.Sort, flat...) })
 		g.wfVal(st, res)
 	} else {
 		if c.Pure {
@@ -1241,4 +1248,13 @@ func (g *Gen) readsComps(c *Contract, sc *SCtx) []string {
 		}
 	}
 	return out
+}
+
+func fnv32(s string) uint32 {
+	h := uint32(2166136261)
+	for i := 0; i < len(s); i++ {
+		h ^= uint32(s[i])
+		h *= 16777619
+	}
+	return h
 }
